@@ -832,7 +832,14 @@ impl<'p> Exec<'p> {
             return Ok(());
         }
         let before = Some(self.dump_current());
-        let vec = vec![0.5f32; len];
+        // the wrong-length vector shares as much as it can with what the item already holds (a caller that
+        // sends the right data at the wrong length)
+        let mut vec = vec![0.5f32; len];
+        if let Some(stored) = im.items.get(&id) {
+            for (a, b) in vec.iter_mut().zip(stored.iter()) {
+                *a = *b;
+            }
+        }
         self.trace_step("bad_add");
         let wrc = self.writer_rc(ix);
         let wtxn = self.wtxn.as_mut().unwrap();
